@@ -131,6 +131,45 @@ def factorings(base, rnd, limit):
                     pat2 = copy.deepcopy(base)
                     _set(pat2, path, {"@z1": {"p-arg1": leaf}})
                     out.append(("param_binding_below_name", [{"name": "@z1", "args": ["p-arg1"], "pattern": [copy.deepcopy(body)]}], pat2))
+    # (e1) formal parameter names that occur INSIDE other names of the body, and two formals one of which is a prefix of the other:
+    # a formal parameter is replaced where it IS the leaf, never where it is part of a longer name
+    for path, sub in paths:
+        if path and _in_list(path, base) and isinstance(sub, dict):
+            sl = [(p, s_) for p, s_ in _paths(sub) if p and isinstance(s_, str) and not s_.startswith(("$", "@"))]
+            texts = [s_ for _, s_ in _paths(sub) if isinstance(s_, str)]
+            for lp, leaf in sl[:2]:
+                others = [s_ for _, s_ in sl if s_ != leaf and len(s_) >= 2]
+                if not others:
+                    continue
+                formal = others[0][:-1] if len(others[0]) > 2 else others[0][:1]
+                if formal in texts or not formal or formal == "times":
+                    continue
+                body = copy.deepcopy(sub)
+                for p2, s2 in list(_paths(body)):
+                    if p2 and s2 == leaf:
+                        _set(body, p2, formal)
+                pat = copy.deepcopy(base)
+                _set(pat, path, {"@z1": None, formal: leaf})
+                out.append(("param_formal_inside_other_name", [{"name": "@z1", "args": [formal], "pattern": [body]}], pat))
+                break
+            distinct = []
+            for _, s_ in sl:
+                if s_ not in distinct:
+                    distinct.append(s_)
+            if len(distinct) >= 2:
+                l1, l2 = distinct[0], distinct[1]
+                body = copy.deepcopy(sub)
+                for p2, s2 in list(_paths(body)):
+                    if p2 and s2 == l1:
+                        _set(body, p2, "p-r")
+                    elif p2 and s2 == l2:
+                        _set(body, p2, "p-r2")
+                pat = copy.deepcopy(base)
+                _set(pat, path, {"@z1": None, "p-r": l1, "p-r2": l2})
+                out.append(("param_prefix_formals", [{"name": "@z1", "args": ["p-r", "p-r2"], "pattern": [body]}], pat))
+                pat = copy.deepcopy(base)
+                _set(pat, path, {"@z1": None, "p-r2": l2, "p-r": l1})
+                out.append(("param_prefix_formals_rev", [{"name": "@z1", "args": ["p-r2", "p-r"], "pattern": [copy.deepcopy(body)]}], pat))
     # (e2) a repetition bound supplied through a macro argument (times: <formal>, min/max: <formal>)
     for path, sub in paths:
         if path and _in_list(path, base) and isinstance(sub, dict):
